@@ -178,12 +178,25 @@ func checkC20(c *Ctx) {
 	})
 	c.Check(okFill, "C20-R2", "Fill:rectangle", p.pos(fill.Pos()), "Fill writes (x+physx, y+physy) for x < width, y < height")
 	// ---- R3
+	// the "needs a layout" flag, by role: the boolean field of the box that layout() clears
+	changedField := "changed"
+	if l := bl["layout"]; l != nil {
+		eachInstr(l, func(in ssa.Instruction) {
+			if st, ok := in.(*ssa.Store); ok {
+				if ref, _, isF := fieldAddrRef(st.Addr); isF && ref.Owner == blOwner {
+					if v, isC := constBool(st.Val); isC && !v {
+						changedField = ref.Name
+					}
+				}
+			}
+		})
+	}
 	layoutCalls := func(fn *ssa.Function) map[ssa.Instruction]bool {
 		out := map[ssa.Instruction]bool{}
 		for _, call := range callsIn(fn, func(n string, _ *ssa.CallCommon) bool { return strings.HasSuffix(n, "BoxLayout).layout") }) {
 			out[call] = true
 		}
-		for _, st := range storesTo(fn, blOwner, "changed") {
+		for _, st := range storesTo(fn, blOwner, changedField) {
 			if v, isC := constBool(st.Val); isC && v {
 				out[st] = true
 			}
@@ -276,7 +289,7 @@ func checkC20(c *Ctx) {
 		ok := false
 		for call := range layoutCalls(d) {
 			for _, a := range guardsAt(call.Block()) {
-				if a.L == "b.changed" && a.Op == "==" && a.R == "true" {
+				if strings.HasSuffix(a.L, "."+changedField) && a.Op == "==" && a.R == "true" {
 					ok = true
 				}
 			}
@@ -294,7 +307,7 @@ func checkC20(c *Ctx) {
 	}
 	if l := bl["layout"]; l != nil {
 		ok := false
-		for _, st := range storesTo(l, blOwner, "changed") {
+		for _, st := range storesTo(l, blOwner, changedField) {
 			if v, isC := constBool(st.Val); isC && !v {
 				ok = true
 			}
